@@ -291,6 +291,8 @@ def run_cdc(sc, lock_edges=0):
     nreads = sum(1 for p in plan if not p[1])
     state = dict(rgot=0, ucycles=0, scycles=0, done=False, timed_out=False, rin=0, win=0, wout=0, rmax=0, wmax=0, maxout=0)
     max_ucycles = sc.get("max_ucycles", 400 * len(plan) + 20000)
+    stall_limit = sc.get("stall_limit", 6000)
+    state.update(nev=0, progress_at=0)
 
     def sample(port):
         return dict(cv=(yield port.cmd.valid), cr=(yield port.cmd.ready), cwe=(yield port.cmd.we), ca=(yield port.cmd.addr),
@@ -353,7 +355,12 @@ def run_cdc(sc, lock_edges=0):
         ready = 1
         yield user.rdata.ready.eq(1)
         while True:
-            if state["ucycles"] > max_ucycles:
+            nev = len(events)
+            if nev != state["nev"]:
+                state["nev"], state["progress_at"] = nev, state["ucycles"]
+            if state["ucycles"] > max_ucycles or state["ucycles"] - state["progress_at"] > stall_limit:
+                # no handshake anywhere for a long time (or the overall bound): something was lost; stop and let the
+                # monitors say what ("never delivered" / "never completed")
                 state["timed_out"] = True
                 break
             if pending is not None and (yield user.cmd.valid) and (yield user.cmd.ready):
